@@ -23,6 +23,7 @@ Inductive roevent :=
 | ORebuilt (id : nat) (o : nat)
 | OHREvent (i : nat) (e : Z) (ok : bool)
 | OHRTick | OHRTimeout
+| OTimer (id : nat)                  (* the rebuild dial of pool id was seen on the wire: its timer has fired *)
 | OCloseBegin | OCloseEnd
 | OGetStreamR (k : nat) (ok : bool).
 
@@ -60,10 +61,12 @@ Definition robs_diff (a b : robs) : Z :=
 Definition r_accept_one (s : rstate) (oe : roevent) : rstate + Z :=
   match oe with
   | OLost o => if r_enabled s (SessionLost o) then inl (r_step s (SessionLost o)) else inr 20
+  | OTimer id => if r_enabled s (TimerFires id) then inl (r_step s (TimerFires id)) else inr 24
   | ORebuilt id o =>
-      if negb (r_enabled s (TimerFires id)) then inr 24
+      let already := match w_pc (watcher_of s id) with WCompare => true | _ => false end in
+      if negb already && negb (r_enabled s (TimerFires id)) then inr 24
       else
-        let s1 := r_step s (TimerFires id) in
+        let s1 := if already then s else r_step s (TimerFires id) in
         if negb (Nat.eqb (w_pool (watcher_of s1 id)) o) then inr 25
         else
           let s2 := r_step s1 (Compare id true) in
@@ -71,8 +74,27 @@ Definition r_accept_one (s : rstate) (oe : roevent) : rstate + Z :=
   | OHREvent i e ok => if r_enabled s (HREvent i e ok) then inl (r_step s (HREvent i e ok)) else inr 20
   | OHRTick => if r_enabled s HRTick then inl (r_step s HRTick) else inr 20
   | OHRTimeout => if r_enabled s HRTimeout then inl (r_step s HRTimeout) else inr 20
-  | OCloseBegin => if r_enabled s CloseBegin then inl (r_step s CloseBegin) else inr 20
-  | OCloseEnd => if r_enabled s CloseEnd then inl (r_step s CloseEnd) else inr 20
+  | OCloseBegin =>
+      (* SessionManager.Close is called: cancelFunc *)
+      match cprog s with
+      | CCancel :: _ => inl (r_step s CloseStep)
+      | _ => inr 20
+      end
+  | OCloseEnd =>
+      (* SessionManager.Close has returned: every remaining statement of its body must be able to run, in
+         order (27: the model's wg.Wait cannot return: a watcher has not returned) *)
+      let fix go (fuel : nat) (t : rstate) : rstate + Z :=
+        match fuel with
+        | O => inr 27
+        | S f => match cprog t with
+                 | [] => inl t
+                 | _ => if r_enabled t CloseStep then go f (settle (r_step t CloseStep)) else inr 27
+                 end
+        end in
+      match cprog s with
+      | [] => inr 20
+      | _ => go 6%nat s
+      end
   | OGetStreamR k ok =>
       if negb (r_enabled s (GetStreamR k)) then inr 20
       else match get_stream_r s k, ok with
